@@ -670,12 +670,51 @@ def length_gates(ctx: Ctx, rep: Report, rid: str = "R06.9") -> None:
     rep.note(f"{rid} {len(gates)} functions bound the length of a text; {len(sites)} places where the bound meets an object's text")
 
 
+def member_numbers_symmetric(ctx: Ctx, rep: Report, rid: str = "R06.11") -> None:
+    """The reader of a group keeps a member's number under the same conditions under which the member's writer writes it:
+    `AddressAg.line` writes the number whenever it is non-zero, whatever the platform, so the group reader that stores
+    it from the parsed text must not make that depend on the platform (text with numbers would be read back without)."""
+    rep.rule(rid)
+    w = ctx.func("AddressAg.line.getter")
+    wcfg = ctx.cfg(w)
+    writer_platform = False
+    for nd in wcfg.live:
+        if nd.kind == "stmt" and isinstance(nd.ast, ast.Return) and nd.ast.value is not None and "_sequence" in src(nd.ast.value):
+            for c, _lab in wcfg.transitive_control_deps(nd):
+                if c.kind == "cond" and "latform" in src(c.ast):
+                    writer_platform = True
+    r = ctx.func("AddrGroup.line.setter")
+    from .normalise import normalised
+
+    rn = normalised(ctx, r, "calls")
+    rcfg = ctx.cfg(rn)
+    stores = [nd for nd in rcfg.live if nd.kind == "stmt" and isinstance(nd.ast, (ast.Assign, ast.AnnAssign)) and any(isinstance(t, ast.Attribute) and t.attr in ("sequence", "_sequence") for t in (nd.ast.targets if isinstance(nd.ast, ast.Assign) else [nd.ast.target]))]
+    rep.instance()
+    if not stores:
+        # the number may travel inside the member's own text (AddressAg(line="10 host ...")): nothing to compare
+        rep.ok("AddrGroup.line setter", "the member's number is not stored separately (it is read by the member from its own text)", nontrivial=False, where=where(r))
+        return
+    for st in stores:
+        cond_pl = [c for c, _lab in rcfg.transitive_control_deps(st) if c.kind == "cond" and "latform" in src(c.ast)]
+        if cond_pl and not writer_platform:
+            rep.violation("AddrGroup.line.setter", f"{snippet(st.ast, 50)} under {snippet(cond_pl[0].ast, 40)}", "the member's number is kept only on some platforms, but AddressAg.line writes it on every platform: a numbered group rendered on the other platform is read back without its numbers (text and data differ)", where(r, st.ast), inp="AddrGroup('object-group network G\\n 10 host 10.0.0.1', platform='ios')")
+        else:
+            rep.ok(f"AddrGroup.line setter: {snippet(st.ast, 50)}", "stored under the conditions the writer writes it", where=where(r, st.ast))
+
+
 def run(ctx: Ctx, rep: Report, tier: str) -> None:
     from . import c01
     from .c08 import validated_is_returned
 
     container_render_order(ctx, rep)
     length_gates(ctx, rep)
+    member_numbers_symmetric(ctx, rep)
+    # R06.12 parsed lines are collected with list operations, never through the de-duplicating Group.add (C12 R12.12)
+    from .c12 import no_dedup_collection
+
+    sub12 = Report("C06")
+    no_dedup_collection(ctx, sub12)
+    rep.absorb(sub12, "R06.12")
     # R06.10 the kind an address is given ("any", "host", ...) decides what is rendered for it: the kind tests must
     # single out exactly the network the keyword stands for, or the rendered keyword re-parses to another network
     c01.classification_guards(ctx, rep, rid="R06.10")
